@@ -52,6 +52,7 @@ type vpWorldCfg struct {
 	fixedThresholds *PeerScoreThresholds
 	symThresholds   bool // thresholds are solver variables accepted by the real validation
 	opts            []Option
+	concreteScores  bool // scores are the concrete distinct values P, P-1, ..., 1 (peer i scores P-i): sorting by score is then concrete
 	allInMesh       bool // membership concrete: every peer is a connected v1.1 topic member in the mesh, not direct, not backed off; only scores and connection directions stay symbolic
 }
 
@@ -120,6 +121,9 @@ func vpNewWorld(c vpWorldCfg) *vpWorld {
 		if c.scoring {
 			sc = vpFloat("score")
 			vpAssume(sc == sc && sc < 1e300 && sc > -1e300) // a number, as the real score function yields for valid parameters (C10)
+			if c.concreteScores {
+				sc = float64(c.P - i)
+			}
 		}
 		direct = direct && c.direct
 		if c.allInMesh {
